@@ -81,12 +81,12 @@ class C05(Property):
         "sets on the inputs of grouping steps, distinct tags per port, prefix-antichain inputs for dot products",
         "no failures, no recovery, no loops in the generated workflows",
     ]
-    quick_budget_s = 420
+    quick_budget_s = 600
     thorough_budget_s = 2400
     min_nontrivial = 10
 
     def _plan(self, ctx: Ctx):
-        n, k = (250, 8) if ctx.tier == "thorough" else (45, 3)
+        n, k = (250, 8) if ctx.tier == "thorough" else (40, 3)
         if ctx.mode == "search":
             n, k = n, 16
         return n, k
@@ -100,6 +100,11 @@ class C05(Property):
             if ctx.out_of_time():
                 ctx.extra["incomplete"] = True
                 break
+            if ctx.mode == "check" and ((i >= 20 and ctx.tier == "quick" and ctx.time_left() < 0.5 * self.quick_budget_s) or
+                                        (i >= 60 and ctx.tier == "thorough" and ctx.time_left() < 0.4 * self.thorough_budget_s)):
+                # heavily loaded machine: the plan is "up to n workflows", at least 20 (quick) / 60 (thorough), corpus included
+                ctx.notes.append(f"soft time limit: stopped after {i} of {n} planned workflows")
+                break
             if i < len(wfgen.CORPUS):
                 spec = json.loads(json.dumps(wfgen.CORPUS[i]))
                 ctx.corpus_replayed += 1
@@ -107,7 +112,7 @@ class C05(Property):
             if i >= len(wfgen.CORPUS):
                 spec = wfgen.gen_spec(rng, size=rng.randint(2, 12), features=feats)
             seeds = [rng.randrange(1 << 30) for _ in range(k)]
-            runs = wfcheck.run_schedules(spec, seeds, ctx.scratch, timeout=30.0)
+            runs = wfcheck.run_schedules(spec, seeds, ctx.scratch, timeout=30.0, stop_on_hang=True)
             den = wfgen.py_den(spec)
             ntok = sum(len(v) for v in den.values())
             key = ("wf", json.dumps(spec, sort_keys=True)) if len(spec["nodes"]) >= 3 and ntok >= 5 else None
@@ -117,7 +122,7 @@ class C05(Property):
                 ctx.fail(fkey, detail, self._shrunk(ctx, spec, seeds_, fkey))
             for r in runs:
                 if r["outcome"]["kind"] == "harness-error":
-                    ctx.notes.append(f"harness error: {r['outcome']['detail'][:200]}")
+                    ctx.notes.append(f"harness error: {r['outcome']['detail'][:1500]}")
             lines.append(f"den {wfcheck.spec_words(spec)}")
             metas.append((spec, runs))
             # operational model of the grouping loop: real arrival orders in, real emission order out
@@ -186,7 +191,7 @@ class C05(Property):
             return super().replay(ctx, data)
         spec = r["spec"]
         seeds = [s for s in r.get("seeds", [1, 2, 3]) if s] or [1, 2, 3]
-        runs = wfcheck.run_schedules(spec, seeds, ctx.scratch, timeout=30.0)
+        runs = wfcheck.run_schedules(spec, seeds, ctx.scratch, timeout=30.0, stop_on_hang=True)
         g = ctx.lean("Drivers/Net.lean", [f"den {wfcheck.spec_words(spec)}"])[0]
         head, rest = wfcheck.split_den_answer(g)
         print("spec :", json.dumps(spec))
